@@ -5,7 +5,8 @@
    wf_assign17 t a      conditions on the template together with an assignment of user tags
 
    Two kinds of conditions:
-   (S) syntactic: literal text, tag names, defaults and values contain neither '<' nor '>', names contain no '=';
+   (S) syntactic: tag names, defaults and values contain neither '<' nor '>', names contain no '='; literal text contains no
+       "<<<" and does not begin with '<' (lit_ok);
    (C) classification: every rendered template line is classified by the engine's own substring tests
        (hasSpecificTag = "has some tag" and "contains the keyword anywhere") as what it is meant to be.  These are the
        engine's substring quirks: a line that fails (C) is treated by the engine as something else (e.g. a plain line
@@ -20,9 +21,20 @@ Open Scope list_scope.
 Fixpoint no_lg (s : string) : bool :=
   match s with EmptyString => true | String c r => negb (is_lg c) && no_lg r end.
 
+(* Literal text may contain '<' and '>'.  What the engine's tag scanner (tag_pattern = <<<[^<>]*>>>, str.replace of <<<k>>>)
+   needs is that no tag-shaped text arises in a literal or across a literal / literal or literal / tag boundary, before and
+   after substitution.  The criterion used (sufficient, self-contained per literal, closed under concatenation and under the
+   substitution of '<' '>'-free values for tags): a literal contains no "<<<" and does not begin with '<'.  It may end in
+   '<' or "<<" directly before a tag ("Exit<<<<STATENAME>>>>()": the scanner's match starts at the second '<', exactly as
+   re.findall / str.replace do), may begin with '>' directly after one, and '>' is unrestricted. *)
+Fixpoint no3 (s : string) : bool :=
+  match s with EmptyString => true | String _ r => negb (prefixb OPEN3 s) && no3 r end.
+Definition starts_lt (p : string) : bool := match p with String c _ => Ascii.eqb c LT | EmptyString => false end.
+Definition lit_ok (s : string) : bool := negb (starts_lt s) && no3 s.
+
 Definition seg_ok (g : seg) : bool :=
   match g with
-  | Lit s => no_lg s
+  | Lit s => lit_ok s
   | Tag n None => no_lg n && negb (has_char EQ n)
   | Tag n (Some d) => no_lg n && negb (has_char EQ n) && no_lg d
   end.
